@@ -110,7 +110,7 @@ Definition zq_provided (g : igraph) (z : zstate) (t : target) : zstate * list if
 
 (* I.implementedBy(c) / I.providedBy(t): membership in _implied of the same specification *)
 Definition zq_i_implementedBy (g : igraph) (z : zstate) (c : cls) (i : iface) : zstate * bool :=
-  let z' := zensure z c in (z', existsb (fun y => ext g y i) (zdirect z' c)).
+  let z' := zensure z c in (z', Nat.eqb i 0 || existsb (fun y => ext g y i) (zdirect z' c)).
 
 Definition zq_dpb (z : zstate) (t : target) : list iface :=
   match t with
